@@ -74,7 +74,7 @@ META = {
         "Tuple[int, ...], pydantic model, model whose fields all have defaults, dataclass} followed by defaulted kinds {annotated int default, TaskiqDepends dependency, Context} and "
         "an optional keyword-only tail {annotated, un-annotated} (functions generated with exec); for each signature every "
         "split of the caller's arguments into positional prefix / keywords that Python accepts x value schemes {convertible "
-        "strings, non-convertible strings, native values, model/dataclass instances, None, falsy non-None values (0, '', [], {}), "
+        "strings, non-convertible strings, native values, model/dataclass instances, None, falsy non-None values (0, '', [], {}), the same interned object repeated after a refused and a converted one, "
         "alternating, one parameter omitted "
         "where it has a default} x validate_params in {True, False} x serializer in {JSON, pickle}. The generated function "
         "records what it received. Reference: inspect.signature(f).bind_partial(*args, **kwargs) gives the parameter each value "
@@ -159,6 +159,15 @@ def value_for(kind: str, scheme: str, j: int) -> Any:
     """Value the caller sends for parameter j of the given kind under a scheme."""
     if scheme == "none":
         return None
+    if scheme in ("rep", "rep2"):
+        # the same (interned) objects repeated along the parameter list: a value that cannot be converted
+        # first, then one that can, then that very object again (rep2: the refused one again at the end)
+        if kind in "idIf":
+            seq = ["x", "5", "5", "x", "5"] if scheme == "rep" else ["7", "x", "x", "7", "x"]
+            return seq[j % 5]
+        if kind == "s":
+            return [1, "a", "a", 1][j % 4]
+        scheme = "alt"
     if scheme == "falsy":
         # falsy but not None: conversion must still happen (0 -> 0.0, [] -> (), {} -> model with defaults)
         return {"i": 0, "d": 0, "I": 0, "f": 0, "s": "", "M": {}, "D": {}, "N": {}, "T": []}.get(kind, [])
@@ -243,7 +252,7 @@ def expected_value(kind: str, sent: Any, validate: bool) -> Any:
         return w
 
 
-SCHEMES = ["conv", "nonconv", "native", "inst", "none", "alt", "falsy"]
+SCHEMES = ["conv", "nonconv", "native", "inst", "none", "alt", "falsy", "rep", "rep2"]
 
 
 def run_signature(sig: Tuple[str, str], acc: Acc, sers: List[str]) -> None:
